@@ -415,5 +415,10 @@ def run(repo, check):
     from sa.rules.common import share
     share(check, repo, c09.rule_registered, 'C07.R10', 'every value node is addressable by the flat index a bitmap link designates (shared with C09.R7)', args=('C07.R10',))
     share(check, repo, c06.rule_alias, 'C07.R11', 'link records: one per subset when uncompressed, one shared record when compressed (shared with C05.R3 / C06.R5)', args=('C07.R11',))
+    from sa.rules import c01 as _c01, c06 as _c06
+    from sa.rules.common import share as _sh
+    _sh(check, repo, _c01.rule_r4, 'C07.R12', 'bitmap operators 235000 / 236000 / 237000 / 237255 change exactly the registers FM-94 says (shared with C01.R4)', args=(check.tier,),
+        keep=lambda f: any(k in f.key for k in (':222', ':223', ':224', ':225', ':232', ':235', ':236', ':237')))
+    _sh(check, repo, _c06.rule_r3, 'C07.R13', 'attributes are wired subset by subset, each on its own records (shared with C06.R3)', args=('C07.R13', (False, True)))
     check.assumptions = ['each primitive appends exactly one flat entry (C01.R3), so the k-th emission is flat index k',
                          'which element a given bitmap designates in a given message is a runtime fact; the rules decide the mechanism']
